@@ -13,6 +13,7 @@ import (
 
 	"verifharness/internal/bdb"
 	"verifharness/internal/evid"
+	"verifharness/internal/svc"
 )
 
 // cstep is one always-applicable event of a concurrent program.
@@ -29,7 +30,7 @@ func runConcurrentFold(cfg Cfg, workers int, progs map[string][]cstep) string {
 	f := &fixture{cfg: cfg, dir: bdb.TempDir("c20c"), workers: workers, quiet: true}
 	defer os.RemoveAll(f.dir)
 	if err := f.open(); err != nil {
-		return "VERIF-INCONCLUSIVE: " + err.Error()
+		return svc.Verdict(err)
 	}
 	defer f.close()
 	folds := map[string]string{}
